@@ -85,7 +85,7 @@ def comp_data(name, kwargs, inject_fn, injects, echo_id, comp_id, label=None, ex
     """The get_context_data of every generated component (shared by the real class and the model)."""
     d = {
         name + "_s": kwargs.get("s", "dflt" + (label or name)),
-        name + "_l": kwargs.get("l", ["d0"]),
+        name + "_l": kwargs.get("l", ["d0", "d1"]),
         name + "_n": ["a", "b"],
         name + "_t": True,
         name + "_f": False,
@@ -97,6 +97,32 @@ def comp_data(name, kwargs, inject_fn, injects, echo_id, comp_id, label=None, ex
     if extra:
         d.update(extra)
     return d
+
+
+class BoomError(Exception):
+    pass
+
+
+_BOOM = []
+
+
+def boom_class():
+    """A component whose stand-alone render always fails below its root (in a nested component's get_context_data)."""
+    if not _BOOM:
+        from django_components import Component
+        from django_components import registry as default_registry
+
+        def inner_gcd(self, **kwargs):
+            raise BoomError("nested stand-alone render fails")
+
+        inner = type("GenBoomInner", (Component,), {"template": "never", "get_context_data": inner_gcd,
+                                                      "__module__": "sim.generated"})
+        default_registry.register("genboominner", inner)
+        outer = type("GenBoom", (Component,), {
+            "template": '<div>{% component "genboominner" / %}</div><span>{% component "genboominner" / %}</span>',
+            "__module__": "sim.generated"})
+        _BOOM.append(outer)
+    return _BOOM[0]
 
 
 def build_classes(prog, registry=None, module="sim.generated"):
@@ -114,6 +140,11 @@ def build_classes(prog, registry=None, module="sim.generated"):
         def make(cd=cd, name=name):
             def get_context_data(self, **kwargs):
                 world.fault_point("gcd:" + name)
+                if cd.get("tryfail"):
+                    try:
+                        boom_class().render(kwargs={"why": name})
+                    except BoomError:
+                        pass
 
                 def inj(key, has_default):
                     v = self.inject(key, DEFAULT_SENTINEL) if has_default else self.inject(key)
